@@ -1088,8 +1088,31 @@ pub fn ip_setup(a: usize, b: usize) {
         IP_FMT_OK = kani::any();
     }
 }
+/// C04 "not even while the borrow is in use": while a payload operation runs (i.e. in the middle of
+/// the handle's comparison / hash / format), the count word the harness asked to watch is read
+pub static mut IP_WATCH: Cw = core::ptr::null();
+pub static mut IP_SEEN_MIN: usize = usize::MAX;
+pub static mut IP_SEEN_MAX: usize = 0;
+pub fn ip_watch(c: Cw) {
+    unsafe {
+        IP_WATCH = c;
+    }
+}
+/// every value the watched count had while payload operations ran was `n`
+pub fn ip_seen_only(n: usize) -> bool {
+    unsafe { IP_SEEN_MIN == n && IP_SEEN_MAX == n }
+}
 fn ip_rec<A: ?Sized, B: ?Sized>(op: usize, s: &A, o: &B) {
     unsafe {
+        if !IP_WATCH.is_null() {
+            let c = rd(IP_WATCH);
+            if c < IP_SEEN_MIN {
+                IP_SEEN_MIN = c;
+            }
+            if c > IP_SEEN_MAX {
+                IP_SEEN_MAX = c;
+            }
+        }
         IP_CALLS[op] += 1;
         IP_SELF = s as *const A as *const u8 as usize;
         IP_OTHER = o as *const B as *const u8 as usize;
